@@ -475,6 +475,9 @@ class Parser:
         token = self.current_token
         if str(token) in '{[':
             return True
+        if token.is_mark('-'):
+            # A negative number; no command starts with a minus.
+            return True
         if token.token_type in (
                 TokenTypes.LITERAL_STRING,
                 TokenTypes.NUMBER):
@@ -521,7 +524,14 @@ class Parser:
         """
         if self._context.has_symbol_typed(name, SymbolType.MACRO):
             return self.trigger_error('Already defined: "{}"'.format(name))
+        uminus = self._current_token.is_mark('-')
+        if uminus:
+            self.next_token()
+            if not self._current_token.is_a(TokenTypes.NUMBER):
+                return self.token_error('Macro needs constant, got "-{}"')
         value = self._current_literal()
+        if uminus and value is not None:
+            value = -value
         if value is None:
             inner_macro = self._context.get_macro(str(self._current_token))
             if inner_macro.undefined:
